@@ -1,3 +1,4 @@
 pub mod pool;
 pub mod math;
 pub mod vault;
+pub mod lair;
